@@ -63,11 +63,19 @@ LITERAL_BODIES = ["", "a", "\\b\\f\\n\\r\\t\\/\\\\", "\\'", '\\"', "\\a", "\\x41
                   "\\u0x41", "\\u００４１", "\\u041 ", "a\\ud83d", "\\udc00\\ud800", "\\ud800\\ud800", "\\e", "\\N", "\\ "]
 
 
+
+# many raw quotes of the other kind before a malformed escape (offsets computed on a rewritten copy drift)
+LITERAL_BODIES += ['"' * 5 + "\\u", '"' * 6 + "\\u12", '"' * 7 + "\\ud800", '"' * 8 + "\\x", "'" * 5 + "\\u", "'" * 6 + "\\ud800\\u12",
+                   '"' * 10 + "\\udc00", 'a"b"c"d"e"f"' + "\\q", "'" * 8 + "\\ud83d\\ud83d"]
+
+
 def literal_queries():
     """Queries exercising string literals at the very end of the text and in every position."""
     out = []
     for body in LITERAL_BODIES:
         for q in "'\"":
+            if q in body.replace("\\" + q, "") and len(body) > 4:
+                continue          # raw quotes of the OTHER kind only
             lit = q + body + q
             out += [f"$[{lit}]", f"$[?@ == {lit}]", f"$[?@.a == {lit} && @.b]", f"$[{lit}, 0]", f"$[?match(@, {lit})]", f"$[{lit}", f"$[?@ == {lit}"]
     return out
